@@ -584,6 +584,23 @@ def long_write_cases(tier):
                    'policy': {'delays': [], 'dups': [], 'errors': [], 'dup_gap': 0.001}, 'drop': None, 'asap': True, 'schedule': {'prefix': [], 'seed': ln, 'rate': 0.0}}
 
 
+def flush_cases(tier):
+    """writes queued behind one that is on the air, then a write that flushes the queue - all lengths, with and without one more write after it"""
+    for la in (10, 30, 60):
+        for lb in (None, 10, 40):
+            for lc in (10, 26, 55):
+                for more in (False, True):
+                    for delay in (0.001, 0.02):
+                        ops = [{'op': 'write', 'mem': 0, 'addr': 0, 'len': la, 'seed': 1, 'flush': False, 'gap': 0}]
+                        if lb:
+                            ops.append({'op': 'write', 'mem': 0, 'addr': 64, 'len': lb, 'seed': 2, 'flush': False, 'gap': 0})
+                        ops.append({'op': 'write', 'mem': 0, 'addr': 128, 'len': lc, 'seed': 3, 'flush': True, 'gap': 0})
+                        if more:
+                            ops.append({'op': 'write', 'mem': 0, 'addr': 200, 'len': 12, 'seed': 4, 'flush': False, 'gap': 0})
+                        yield {'sizes': [256], 'ops': ops, 'needs_resending': False, 'policy': {'delays': [delay], 'dups': [], 'errors': [], 'dup_gap': 0.001},
+                               'drop': None, 'schedule': {'prefix': [], 'seed': la + lc, 'rate': 0.0}}
+
+
 def single_preemption_cases(tier):
     """replies without latency; exactly one forced thread switch at the k-th scheduling decision of a fixed history"""
     hist = [
@@ -607,5 +624,6 @@ def subchecks(tier):
         Sub('long-writes', run_mem, cases=long_write_cases, distinct_by_construction=True),
         Sub('drop-sweep', run_mem, cases=drop_sweep_cases, distinct_by_construction=True),
         Sub('error-sweep', run_mem, cases=error_sweep_cases, distinct_by_construction=True),
+        Sub('flush-histories', run_mem, cases=flush_cases, distinct_by_construction=True),
         Sub('deck-api', run_deck_api, strategy=deck_api_case(), examples={'quick': 600, 'thorough': 30000}),
     ]
